@@ -430,6 +430,22 @@ func valueGroupCorpus() []EncRec {
 	return out
 }
 
+// values that implement only encoding.TextMarshaler, with benign text and with text that would split the line, forge a pair
+// or recolour the terminal if it were written raw; alone, between other attributes and inside a group
+func textMarshalerCorpus(mode string) []EncRec {
+	var out []EncRec
+	tm := func(t string) GVal { return GVal{Kind: "textm", S: t} }
+	cfg := EncCfg{Mode: mode, Level: 4, TagWidth: 3, MinWidth: 36}
+	for _, t := range []string{"10.0.0.1", "", "two words", "a\nforged=1", "q\"uote", "back\\slash", "\x1b[2J", "\x1b[31mred", "bell\a del\x7f", "cr\rlf\n", "\xff\xfe"} {
+		out = append(out,
+			EncRec{cfg, "m", []GAttr{{Key: "v", Val: tm(t)}}},
+			EncRec{cfg, "m", []GAttr{{Key: "a", Val: GVal{Kind: "int", I: 1}}, {Key: "v", Val: tm(t)}, {Key: "z", Val: GVal{Kind: "string", S: "last"}}}},
+			EncRec{cfg, "two\nlines", []GAttr{{Key: "g", Val: GVal{Kind: "group", Items: []GAttr{{Key: "t", Val: tm(t)}, {Key: "k", Val: GVal{Kind: "bool", B: true}}}}}}},
+		)
+	}
+	return out
+}
+
 func stackErrCorpus(mode string) []EncRec {
 	var out []EncRec
 	se := func(t string) GVal { return GVal{Kind: "stackerr", S: t} }
@@ -479,6 +495,13 @@ func runEncoder(r *Run, id, mode, corr string, p EncProfile, oracle func(EncRec,
 			}
 		}
 	})
+	if mode != "json" {
+		// encoding.TextMarshaler values: the text formats print the marshalled text, quoted like a string (model: VStr)
+		for _, rec := range textMarshalerCorpus(mode) {
+			encOne(r, id, rec, oracle, "corpus-textmarshaler", runeSet)
+			r.Dist["kind=textm"]++
+		}
+	}
 	if mode != "color" {
 		// values outside the model, direct oracle only: errors that carry their stack, with and without the caller field
 		direct := stackErrCorpus(mode)
